@@ -252,9 +252,6 @@ func ruleRootDispatch(c *Ctx) {
 // raw text — except for the value of an operation, which only the decoder
 // produces.
 func (b *Body) nodeTextDispatch(l *Ledger) {
-	if b.Name != "v5" {
-		return
-	}
 	var paddedSites []string
 	for _, fn := range b.exportedAPI(b.Lib) {
 		for _, p := range fn.Params {
@@ -288,6 +285,79 @@ func (b *Body) nodeTextDispatch(l *Ledger) {
 	structural := map[int64]bool{}
 	for _, c := range []byte("{[\"-0123456789tfn") {
 		structural[int64(c)] = true
+	}
+	// helpers that classify a text by its first byte: a function of the library that compares the
+	// byte at a constant index of one of its parameters (a byte slice or a pointer to one)
+	firstByteHelper := map[*ssa.Function]int{}
+	for _, fn := range b.srcFuncs(b.Lib) {
+		allInstrs(fn, func(i ssa.Instruction) {
+			u, ok := i.(*ssa.UnOp)
+			if !ok || u.Op != token.MUL {
+				return
+			}
+			ia, ok := u.X.(*ssa.IndexAddr)
+			if !ok {
+				return
+			}
+			if _, isConst := ia.Index.(*ssa.Const); !isConst {
+				return
+			}
+			root := unwrapConv(ia.X)
+			if ld, ok := root.(*ssa.UnOp); ok && ld.Op == token.MUL {
+				root = ld.X
+			}
+			p, ok := root.(*ssa.Parameter)
+			if !ok || p.Parent() != fn {
+				return
+			}
+			for _, r := range *u.Referrers() {
+				if bo, ok := r.(*ssa.BinOp); ok && (bo.Op == token.EQL || bo.Op == token.NEQ) && feedsBranch(bo, 0) {
+					firstByteHelper[fn] = paramIdx(p)
+				}
+			}
+		})
+	}
+	for _, fn := range b.srcFuncs(b.Lib) {
+		nH := 0
+		badH := ""
+		allInstrs(fn, func(i ssa.Instruction) {
+			call, ok := i.(*ssa.Call)
+			if !ok {
+				return
+			}
+			f := call.Call.StaticCallee()
+			pi, isH := firstByteHelper[f]
+			if !isH || pi >= len(call.Call.Args) {
+				return
+			}
+			arg := unwrapConv(call.Call.Args[pi])
+			if ld, ok := arg.(*ssa.UnOp); ok && ld.Op == token.MUL {
+				if _, fr, ok := fieldLoad(ld); ok && fr.Field == "raw" && fr.Type == "lazyNode" {
+					arg = ld
+				} else if _, fr, ok := fieldLoad(ld.X); ok && fr.Field == "raw" && fr.Type == "lazyNode" {
+					arg = ld.X
+				}
+			}
+			nodeV, fr, ok := fieldLoad(arg)
+			if !ok || fr.Field != "raw" || fr.Type != "lazyNode" {
+				return
+			}
+			if c2, ok := nodeV.(*ssa.Call); ok {
+				if g := c2.Call.StaticCallee(); g != nil && g.Signature.Recv() != nil && isNamed(g.Signature.Recv().Type(), "Operation") {
+					return
+				}
+			}
+			nH++
+			badH = fmt.Sprintf("%s classifies a node by the first byte of its raw text through %s at %s; a node can be built directly over a caller's bytes (%s), and then a well-formed text with leading whitespace is classified differently from the same text without it", fname(fn), fname(f), b.posOf(call), strings.Join(paddedSites, "; "))
+		})
+		if nH > 0 {
+			key := fmt.Sprintf("%s: no first-byte helper is applied to a node's untrimmed text", b.canonFname(fn))
+			if len(paddedSites) > 0 {
+				l.add("R-ROOTDISPATCH", b.Name, key, b.rel(fn.Pos()), Violated, badH, true)
+			} else {
+				l.add("R-ROOTDISPATCH", b.Name, key, b.rel(fn.Pos()), Discharged, "no construction site builds a node over caller bytes", true)
+			}
+		}
 	}
 	for _, fn := range b.srcFuncs(b.Lib) {
 		n, nDelim := 0, 0
@@ -356,7 +426,7 @@ func (b *Body) nodeTextDispatch(l *Ledger) {
 			l.add("R-ROOTDISPATCH", b.Name, key, b.rel(fn.Pos()), Discharged, fmt.Sprintf("%d fixed-offset classification(s), each on the value of an operation (delimited by the decoder, no leading whitespace)", nDelim), true)
 		}
 	}
-	l.stat("R-ROOTDISPATCH").Extra["v5_nodes_built_over_caller_bytes"] = paddedSites
+	l.stat("R-ROOTDISPATCH").Extra[b.Name+"_nodes_built_over_caller_bytes"] = paddedSites
 }
 
 // ---- R-WS -------------------------------------------------------------------------
